@@ -15,4 +15,5 @@ Definition run_suite (id : bytes) (ls : list line) : list line :=
   else if beqb id (bs "C08g") then run_case (SGroup.suite_gr (bs "C08")) ls
   else if beqb id (bs "C09g") then run_case (SGroup.suite_gr (bs "C09")) ls
   else if beqb id (bs "C18g") then run_case (SGroup.suite_gr (bs "C18")) ls
+  else if beqb id (bs "C01g") then run_case (SGroup.suite_gr (bs "C01")) ls
   else [[bs "X"; bs "0"; bs "unknown-suite"]].
